@@ -289,6 +289,29 @@ def armed (s : Stream) : List Ev :=
 def delivering (s : Stream) : Bool :=
   s.isLinked && s.backConsumed && s.pending && (s.phase == .terminated || s.phase == .error)
 
+
+/-! ### pooling of the HTTP/1 backend connection -/
+
+/-- `h1.rs::end_stream`, client position, `BackendStatus::Connected` arm, evaluated on the
+    stream as it is when the backend connection's `end_stream` runs: the connection is parked
+    as `KeepAlive` (and `Router::connect` hands it to the next request of the session for the
+    same cluster) iff `keep_alive_backend && stream.back.is_terminated()`. -/
+def parksBackend (s : Stream) : Bool := s.kaBackend && s.phase == .terminated
+
+/-- Does event `e` end the exchange of a Linked stream with the backend connection parked
+    for reuse? The backend connection's `end_stream` runs
+    * from `writable` once the response is completely written (`H1::Complete`);
+    * from `Mux::timeout(backend)` *after* `set_default_answer` / `forcefully_terminate_answer`
+      replaced `stream.back`;
+    * from `readable` on a parse error, *before* the frontend's `end_stream` (error phase: closed);
+    EOF / HUP: the connection is dead anyway. -/
+def pooledAfter (cfg : Cfg) (s : Stream) (e : Ev) : Bool :=
+  s.isLinked && (step cfg s e).st == .unlinked &&
+  match e with
+  | .frontFlush => parksBackend (step cfg s e)
+  | .timeoutBack => parksBackend (step cfg s e)
+  | _ => false
+
 /-! ### several streams on one frontend (H2), several backends -/
 
 structure Mux where
